@@ -16,15 +16,20 @@ import (
 	"time"
 
 	tea "github.com/charmbracelet/bubbletea"
+	"github.com/charmbracelet/x/term"
 )
 
 func init() {
 	scenarios["exec"] = scenExec
 	scenarios["sigexec"] = func(out *scenOut, r *rng, thorough bool) {
-		out.Rule = "signals after an Exec whose terminal restore fails part-way (the command closed the program's input): SIGTERM and SIGINT must end the program; distinct = signal"
+		out.Rule = "signals after an Exec whose terminal restore fails part-way (the command closed the program's input), and after ReleaseTerminal called n times followed by one RestoreTerminal: SIGTERM and SIGINT must end the program; while released they must not; distinct = (case, signal)"
 		quietStdio()
 		execRestoreFailsThenSignal(out, syscall.SIGTERM)
 		execRestoreFailsThenSignal(out, syscall.SIGINT)
+		for _, n := range []int{1, 2} {
+			signalAfterReleases(out, n, syscall.SIGTERM)
+			signalAfterReleases(out, n, syscall.SIGINT)
+		}
 	}
 }
 
@@ -71,6 +76,8 @@ func scenExec(out *scenOut, r *rng, thorough bool) {
 		execOnce(out, c.bits, c.hist, 2, false, true, "quit", false, 60)
 	}
 	execNilInput(out)
+	execReleaseFails(out, "quit-msg")
+	execAfterEOF(out)
 	for i := 0; i < n; i++ {
 		bits := r.intn(32)
 		nexec := r.rangeIn(1, 3)
@@ -462,5 +469,225 @@ func execOnce(out *scenOut, bits int, hist []int, nexec int, fail, withCallback 
 	if got := vtModes(t); got != (modeSpec{}).String() {
 		out.fail(finding{Property: "C05", Class: "new", What: "terminal not restored when Run returns (program ended during or after an Exec)", Input: desc,
 			Expected: (modeSpec{}).String(), Observed: got})
+	}
+}
+
+// execReleaseFails: an Exec whose ReleaseTerminal step fails (the ioctl restoring the saved
+// line settings reports an error: the terminal went away). The command is not run, the
+// callback receives the error exactly once, and the program keeps obeying what ends it.
+func execReleaseFails(out *scenOut, exit string) {
+	ctl := newRecCtl()
+	pr, pw, err := os.Pipe()
+	if err != nil {
+		return
+	}
+	defer pw.Close()
+	defer pr.Close()
+	gone, err := os.Open(os.DevNull)
+	if err != nil {
+		return
+	}
+	gone.Close() // its descriptor is invalid from now on: every ioctl on it fails
+	var ran int32
+	var run *progRun
+	ready := make(chan struct{})
+	fe := &fakeExec{run: func(f *fakeExec) error { atomic.AddInt32(&ran, 1); return nil }}
+	ctl.onUpdate = func(m tea.Msg, v int) tea.Cmd {
+		if u, ok := m.(userMsg); ok && u.Sender == 9 {
+			<-ready
+			tea.VerifSetTTYInput(run.p, gone, &term.State{})
+			return tea.Exec(fe, func(err error) tea.Msg { return execDoneMsg{Tag: "x", Err: err} })
+		}
+		return nil
+	}
+	run = startProgram(ctl, nil, tea.WithInput(pr), tea.WithoutSignalHandler())
+	close(ready)
+	desc := "Exec with a callback whose ReleaseTerminal fails (restoring the line settings reports an error), then " + exit
+	waitFor(2*time.Second, func() bool { return ctl.log.has("view-exit", "") })
+	run.p.Send(userMsg{9, 0})
+	out.record("exec-release-fails/"+exit, desc)
+	if !waitFor(3*time.Second, func() bool { return ctl.log.has("update-exit", "execdone:x") }) {
+		// (not the end of the scenario: whatever ends the program must still end it)
+		out.fail(finding{Property: "C17", Class: "new", What: "the callback message of an Exec whose terminal release failed was not delivered", Input: desc})
+	} else {
+		time.Sleep(10 * time.Millisecond)
+		if n := ctl.log.count("update-exit", "execdone:x"); n != 1 {
+			out.fail(finding{Property: "C17", Class: "new", What: "the callback message was not delivered exactly once", Input: desc, Expected: "1", Observed: fmt.Sprint(n)})
+		}
+	}
+	if atomic.LoadInt32(&ran) != 0 {
+		out.fail(finding{Property: "C17", Class: "new", What: "the command ran although the terminal could not be released", Input: desc})
+	}
+	want := "nil"
+	switch exit {
+	case "quit-msg":
+		go run.p.Send(tea.Quit())
+	case "quit-call":
+		go run.p.Quit()
+	case "interrupt-msg":
+		want = "interrupted"
+		go run.p.Send(tea.InterruptMsg{})
+	case "user-then-quit":
+		go func() { run.p.Send(userMsg{1, 1}); run.p.Send(tea.Quit()) }()
+	}
+	if !run.wait(3 * time.Second) {
+		out.fail(finding{Property: "C04", Class: "new", What: "Run did not return after " + exit + " that followed an Exec whose terminal release failed (the event loop is stuck)", Input: desc,
+			Expected: "Run returns " + want, Observed: "still running after 3s"})
+		run.p.Kill()
+		run.wait(3 * time.Second)
+		return
+	}
+	if got := errClass(run.err); got != want {
+		out.fail(finding{Property: "C04", Class: "new", What: "wrong Run result", Input: desc, Expected: want, Observed: got})
+	}
+}
+
+// execAfterEOF: the input (a named pipe) reached end of input before the Exec because its writer
+// went away - end of input alone does not end the program, and on a pipe it is transient: a new
+// writer can attach. "Input is read again" after the command: a key typed by the new writer
+// reaches Update.
+func execAfterEOF(out *scenOut) {
+	dir, err := os.MkdirTemp("", "verif-fifo")
+	if err != nil {
+		return
+	}
+	defer os.RemoveAll(dir)
+	path := dir + "/in"
+	if err := syscall.Mkfifo(path, 0o600); err != nil {
+		return
+	}
+	w1c := make(chan *os.File, 1)
+	go func() { f, _ := os.OpenFile(path, os.O_WRONLY, 0); w1c <- f }()
+	rd, err := os.OpenFile(path, os.O_RDONLY, 0)
+	if err != nil {
+		return
+	}
+	defer rd.Close()
+	w1 := <-w1c
+	if w1 == nil {
+		return
+	}
+	ctl := newRecCtl()
+	var w2 atomic.Value
+	fe := &fakeExec{run: func(f *fakeExec) error {
+		if f2, err := os.OpenFile(path, os.O_WRONLY, 0); err == nil {
+			w2.Store(f2)
+		}
+		return nil
+	}}
+	ctl.onUpdate = func(m tea.Msg, v int) tea.Cmd {
+		if u, ok := m.(userMsg); ok && u.Sender == 9 {
+			return tea.Exec(fe, func(err error) tea.Msg { return execDoneMsg{Tag: "x", Err: err} })
+		}
+		return nil
+	}
+	run := startProgram(ctl, nil, tea.WithInput(rd), tea.WithoutSignalHandler())
+	desc := "input is a named pipe whose writer left before the Exec (the reader saw end of input); the command attaches a new writer; a key is typed after the command finished"
+	keyA, keyB := "key type=-1 alt=false paste=false runes=[97]", "key type=-1 alt=false paste=false runes=[98]"
+	w1.Write([]byte("a"))
+	okA := waitFor(3*time.Second, func() bool { return ctl.log.has("update-exit", keyA) })
+	w1.Close()
+	time.Sleep(120 * time.Millisecond) // the read loop has seen end of input
+	out.record("exec-after-eof", desc)
+	if !okA {
+		run.p.Kill()
+		run.wait(3 * time.Second)
+		return // (the set-up did not work here: nothing to judge)
+	}
+	select {
+	case <-run.done:
+		out.fail(finding{Property: "C04", Class: "new", What: "end of input alone ended the program", Input: desc})
+		return
+	default:
+	}
+	run.p.Send(userMsg{9, 0})
+	if !waitFor(3*time.Second, func() bool { return ctl.log.has("update-exit", "execdone:x") }) {
+		out.fail(finding{Property: "C17", Class: "new", What: "the callback message of an Exec was not delivered", Input: desc})
+		run.p.Kill()
+		run.wait(3 * time.Second)
+		return
+	}
+	if f2, ok := w2.Load().(*os.File); ok {
+		defer f2.Close()
+		f2.Write([]byte("b"))
+		if !waitFor(3*time.Second, func() bool { return ctl.log.has("update-exit", keyB) }) {
+			out.fail(finding{Property: "C17", Class: "new", What: "input is not read again after an Exec (the reader had reached end of input before the Exec)", Input: desc,
+				Expected: "the key typed after the command reaches Update", Observed: "no key message within 3s"})
+		}
+	}
+	run.p.Quit()
+	if !run.wait(3 * time.Second) {
+		run.p.Kill()
+		run.wait(3 * time.Second)
+	}
+}
+
+// signalAfterReleases: ReleaseTerminal n times (a retried release, or two places that both
+// release), one RestoreTerminal: the terminal is back with the program, so signals are obeyed
+// again; between the release and the restore they are not.
+func signalAfterReleases(out *scenOut, n int, sig syscall.Signal) {
+	guard := make(chan os.Signal, 8)
+	signal.Notify(guard, syscall.SIGINT, syscall.SIGTERM)
+	defer signal.Stop(guard)
+	ctl := newRecCtl()
+	var run *progRun
+	ready := make(chan struct{})
+	released := make(chan struct{})
+	goOn := make(chan struct{})
+	ctl.onUpdate = func(m tea.Msg, v int) tea.Cmd {
+		if u, ok := m.(userMsg); ok && u.Sender == 9 {
+			<-ready
+			for i := 0; i < n; i++ {
+				run.p.ReleaseTerminal()
+			}
+			close(released)
+			<-goOn
+			run.p.RestoreTerminal()
+		}
+		return nil
+	}
+	run = startProgram(ctl, nil, tea.WithInput(nil))
+	close(ready)
+	desc := fmt.Sprintf("ReleaseTerminal x%d inside Update, %v while released, RestoreTerminal, then %v", n, sig, sig)
+	waitFor(2*time.Second, func() bool { return ctl.log.has("view-exit", "") })
+	time.Sleep(30 * time.Millisecond) // the signal handler goroutine has registered
+	go run.p.Send(userMsg{9, 0})
+	select {
+	case <-released:
+	case <-time.After(3 * time.Second):
+		run.p.Kill()
+		run.wait(3 * time.Second)
+		return
+	}
+	syscall.Kill(syscall.Getpid(), sig)
+	time.Sleep(60 * time.Millisecond)
+	out.record(fmt.Sprintf("signal-after-releases/%d/%v", n, sig), desc)
+	select {
+	case <-run.done:
+		out.fail(finding{Property: "C18", Class: "new", What: "a signal ended the program while the terminal was released", Input: desc})
+		close(goOn)
+		return
+	default:
+	}
+	close(goOn)
+	waitFor(2*time.Second, func() bool { return ctl.log.has("update-exit", "u9.0") })
+	if run.wait(150 * time.Millisecond) {
+		out.fail(finding{Property: "C18", Class: "new", What: "the signal sent while the terminal was released ended the program afterwards", Input: desc, Observed: errClass(run.err)})
+		return
+	}
+	syscall.Kill(syscall.Getpid(), sig)
+	if !run.wait(2 * time.Second) {
+		out.fail(finding{Property: "C18", Class: "new", What: "a signal did not end the program although the terminal had been restored (signals stayed ignored)", Input: desc,
+			Expected: "Run returns", Observed: "still running after 2s"})
+		run.p.Kill()
+		run.wait(3 * time.Second)
+		return
+	}
+	want := "nil"
+	if sig == syscall.SIGINT {
+		want = "interrupted"
+	}
+	if got := errClass(run.err); got != want {
+		out.fail(finding{Property: "C18", Class: "new", What: "wrong Run result after a signal", Input: desc, Expected: want, Observed: got})
 	}
 }
